@@ -124,14 +124,20 @@ def product_cases(draw, max_lines=12, max_pixels=6, max_images=3, levels=("1.1",
     }
 
 
-def in_place_pairs(strategy):
+def in_place_pairs(strategy, stale_index=False):
     """strategy of in-place pair cases {"__pair__": [a, b]}: b is aligned with a so that both
     products have the same root AND the same file names (same level, product id, polarisations,
     scans, filesystem kind) while geometry, counts and all field values differ"""
 
     def align(ab):
-        a, b = ab
+        a, b, how = ab
         b = dict(b)
+        if stale_index and how:
+            # the first product leaves an index behind (how >= 1); the second open also asks for
+            # a fresh one (how == 2): "ignore and rebuild" over an index of the replaced file
+            a = dict(a, create_cache=True)
+            if how == 2:
+                b["create_cache"] = True
         b["level"] = a.get("level", b.get("level"))
         for key in ("fs", "scene_id", "product_id", "naming"):
             if key in a:
@@ -151,7 +157,7 @@ def in_place_pairs(strategy):
             b["images"] = images
         return {"__pair__": [a, b]}
 
-    return st.tuples(strategy, strategy).map(align)
+    return st.tuples(strategy, strategy, st.integers(0, 2)).map(align)
 
 
 def drop_user_cache(url, images):
